@@ -24,7 +24,7 @@ META = {
 }
 
 
-def _setup(names, temp, engine="basic", pad_to=None, damp=None, k=4, remove_com=None):
+def _setup(names, temp, engine="basic", pad_to=None, damp=None, k=4, remove_com=None, elements=None):
     import torch
 
     import seqm.MolecularDynamics as MD
@@ -33,6 +33,8 @@ def _setup(names, temp, engine="basic", pad_to=None, damp=None, k=4, remove_com=
 
     s, x, ch, mu = esh.batch(names, pad_to=pad_to, pad_coord=0.0)
     sp = dict(method="AM1", scf_eps=1e-8, scf_converger=[1], sp2=[False])
+    if elements:
+        sp["elements"] = list(elements)     # one driver for several systems: the element list is given up front
     out = {"molid": [0], "prefix": "/nonexistent/x", "print every": 0, "checkpoint every": 0, "xyz": 0, "h5": {}}
     mol = Molecule(Constants(), sp, torch.as_tensor(x), torch.as_tensor(s))
     kw = dict(seqm_parameters=sp, timestep=0.5, Temp=temp, output=out)
@@ -66,7 +68,17 @@ def probe_initial(inp: Dict[str, Any]) -> Dict[str, Any]:
     bad = []
     kinds = set()
     try:
-        md, mol, s = _setup(inp["names"], inp["temp"], engine=inp.get("engine", "basic"), pad_to=inp.get("pad_to"), damp=inp.get("damp"))
+        md, mol, s = _setup(inp["names"], inp["temp"], engine=inp.get("engine", "basic"), pad_to=inp.get("pad_to"), damp=inp.get("damp"),
+                            elements=[0, 1, 6, 7, 8] if inp.get("prior") else None)
+        if inp.get("prior"):
+            # the SAME driver object has already initialised another run (other centre-of-mass mode / other molecule of the same padded size): nothing of it may survive
+            from seqm.Molecule import Molecule
+            from seqm.seqm_functions.constants import Constants
+            pr = inp["prior"]
+            s0, x0, _, _ = esh.batch(pr["names"], pad_to=mol.species.shape[1])
+            mol0 = Molecule(Constants(), dict(md.seqm_parameters), torch.as_tensor(x0), torch.as_tensor(s0))
+            with contextlib.redirect_stdout(io.StringIO()):
+                md.initialize(mol0, remove_com=tuple(pr["remove_com"]) if pr.get("remove_com") else None)
         torch.manual_seed(inp.get("seed", 0))
         diat_ang = bool(inp.get("remove_com") and inp["remove_com"][0] == "angular" and all(len(esh.GEOMS[n][0]) == 2 for n in inp["names"]) and inp.get("engine", "basic") != "langevin")
         try:
@@ -81,6 +93,14 @@ def probe_initial(inp: Dict[str, Any]) -> Dict[str, Any]:
         if inp["temp"] > 0:
             if np.abs(T - inp["temp"]).max() > 1e-9 * inp["temp"]:
                 bad.append(f"initial temperature {T} != requested {inp['temp']}"); kinds.add("temperature")
+            # ... and under the count of degrees of freedom in force for THIS run, computed here from the documented rule (3N, minus 3 / 6 when linear / angular
+            # centre-of-mass motion is removed; thermostatted engines always count 3N), not read from the driver
+            eng = inp.get("engine", "basic")
+            cons = 0.0 if (not inp.get("remove_com") or eng == "langevin" or (eng == "xl" and inp.get("damp"))) else (6.0 if inp["remove_com"][0] == "angular" else 3.0)
+            nat = (s > 0).sum(1).astype(float)
+            T_own = Ek.numpy() * MD.CONSTANTS.TEMPERATURE_SCALE / (0.5 * (3.0 * nat - cons))
+            if not diat_ang and np.abs(T_own - inp["temp"]).max() > 1e-9 * inp["temp"]:
+                bad.append(f"initial temperature under the documented count of degrees of freedom is {T_own}, requested {inp['temp']}"); kinds.add("temperature_dof")
         else:
             if np.abs(V).max() != 0.0:
                 bad.append("T = 0 but initial velocities are non-zero"); kinds.add("temperature")
@@ -317,6 +337,14 @@ def gen_cases(ctx: Ctx):
         if i % 4 == 3:
             c["remove_com"] = ["angular", 2]
         cases.append(("initial", c))
+    # a driver object that has already initialised ANOTHER run (other centre-of-mass mode, other molecule of the same padded size)
+    pri = [({"names": ["ch4"], "remove_com": None}, {"names": ["ch4"], "remove_com": ["angular", 1]}), ({"names": ["ch4"], "remove_com": ["linear", 1]}, {"names": ["h2o"], "remove_com": None, "pad_to": 5}),
+           ({"names": ["h2o"], "remove_com": ["angular", 2]}, {"names": ["nh3"], "remove_com": ["linear", 1], "pad_to": 4})]
+    for j in range(3 if ctx.thorough else 1):
+        pr, cur = pri[(j + ctx.seed) % 3]
+        if pr["names"] != cur["names"]:
+            pr = dict(pr)
+        cases.append(("initial", dict(cur, temp=300.0, engine=["basic", "xl"][j % 2], seed=int(rng.integers(0, 10**6)), prior=pr, angular=False)))
     cases.append(("initial", {"names": ["h2", "h2o"], "temp": 300.0, "engine": "basic", "seed": 4, "pad_to": 4}))
     cases.append(("initial", {"names": ["h2"], "temp": 300.0, "engine": "basic", "seed": 5, "pad_to": 3, "angular": False}))
     for eng in (["basic", "langevin", "xl"] if ctx.thorough else ["basic", "langevin"]):
